@@ -11,7 +11,7 @@ from rx import Unsupported
 from lib import esc, unesc, esc_list
 
 THEOREMS = ['C17.C17_no_fallback', 'C17.C17_fsp_needed', 'C17.C17_rule_lines']
-BAD = re.compile(r'r(PU|U|pu|u)x,')
+BAD = re.compile(r'r([Pp][Uu]|[Uu])x,')     # any letter case: rPux, is read as a fallback transition too
 LIT = ('hotfix', 'fsp', 'abi3')
 
 
@@ -155,7 +155,21 @@ def run(ctx):
             if nbad <= 3:
                 ctx.violation('real builder chain %s leaves %r' % (sops[i].split('\t')[0], hits[0]),
                               {'op': sops[i], 'output': o, 'chain': sops[i].split('\t')[0]})
-    ctx.cov['search']['real_builder_chains'] = {'texts': len(sops), 'failing': nbad}
+    # the same witnesses through the real chain in processes of their own (a replace list whose order is fixed once
+    # per process, e.g. built by ranging over a map, only fails in some processes)
+    wit = ['  @{bin}/a rPUx,\n  @{bin}/b rUx,\n  @{bin}/c rPUx, # x\n', '  @{shells_path} rUx,\n']
+    nfresh = 16 if ctx.tier == 'quick' else 64
+    nfb = 0
+    for i in range(nfresh):
+        op = '%s\tx\t%s' % (esc_list(full_chains[i % 2]), esc(wit[i % len(wit)]))
+        o = ctx.run_go('builder', [op])[0]
+        ctx.cov['evaluations'] += 1
+        if o.startswith('ok\t') and non_header_bad(unesc(o[3:])):
+            nfb += 1
+            if nfb <= 2:
+                ctx.violation('real builder chain %s leaves %r in a fresh process' % (op.split('\t')[0], non_header_bad(unesc(o[3:]))[0]),
+                              {'op': op, 'output': o, 'note': 'depends on the process: replay several times'})
+    ctx.cov['search']['real_builder_chains'] = {'texts': len(sops), 'failing': nbad, 'fresh_process_runs': nfresh, 'fresh_failing': nfb}
     ctx.cov['rule'] = ('texts = every shipped line holding an exec mode / abi / mqueue / userns token (grouped by 7) + '
                        'random token strings; non-trivial = contains a fallback mode or Ux; real --full builds scanned for '
                        'surviving fallback modes')
